@@ -435,6 +435,38 @@ func runC01(p *engine.Prog, r *engine.Report) {
 	}
 
 	// ---- R1.8 crash freedom
+	// (iv) an entry looked up in the discovered map may be absent (vanished target): every dereference
+	// of such a lookup result needs a nil / presence test on its path
+	nDeref := 0
+	for _, fn := range c.funcs {
+		fi := p.Info(fn)
+		for _, in := range allInstrs(fn) {
+			fa, ok := in.(*ssa.FieldAddr)
+			if !ok {
+				continue
+			}
+			lk, ok := fa.X.(*ssa.Lookup)
+			if !ok || lk.CommaOk || activeT == nil || !types.Identical(lk.X.Type().Underlying(), activeT) {
+				continue
+			}
+			nDeref++
+			base := ownBase(fi, lk)
+			need := engine.Or(engine.Not(engine.EqAtom(base, "nil")), engine.A("has("+base+")"))
+			ok2, have := fi.Implies(fa.Block(), need)
+			r.Check(ok2, "R1.8-crash-freedom", fmt.Sprintf("dereference#%d of a discovered-map lookup in %s", nDeref, engine.FuncName(fn)), "dereference at "+c.at(fa),
+				"the looked-up entry is tested non-nil on every path (targets vanish from discovery between report and cycle)", "path condition: "+strings.Join(nonStructural(have), " ∧ "))
+		}
+	}
+	// (v) a placement on the result of a query needs the result to be non-nil
+	for i, mw := range c.mapWrites {
+		d, _ := loadOfField(mw.Map, c.fScraping)
+		if call, ok := d.(*ssa.Call); ok {
+			fi := p.Info(mw.Parent())
+			ok2, have := fi.Implies(mw.Block(), engine.Not(engine.EqAtom(fi.T(call).S, "nil")))
+			r.Check(ok2, "R1.8-crash-freedom", fmt.Sprintf("placement#%d on a query result in %s", i+1, engine.FuncName(mw.Parent())), "placement at "+c.at(mw),
+				"the free-shard query's result is tested non-nil before it is used", "path condition: "+strings.Join(nonStructural(have), " ∧ "))
+		}
+	}
 	c.checkDivisions(r)
 	c.checkNonNilReports(r)
 }
